@@ -188,6 +188,12 @@ def items(tier):
             for jobs in (1, 2):
                 out.append({"case": {"g": g, "kinds": kinds, "pars": [k != "combine" and jobs > 1 for k in kinds], "jobs": jobs,
                                      "outer_env": True}, "bound": 0})
+    # cond-out is a symbolic link (outputs kept on scratch storage): COND_OUT, COND_DEPS and the library paths are the UNRESOLVED ones
+    for g in rungrid.graphs_upto((1, 2, 3)):
+        n = len(g)
+        for kinds in (["cmd"] * n, ["exp"] * n, (["combine"] + ["exp"] * n)[:n]):
+            for pk in (["", "", ""], ["a/b", "", "a"]):
+                out.append({"case": {"g": g, "kinds": kinds, "pars": [False] * n, "jobs": 1, "pkgs": pk[:n], "symlink_out": True}, "bound": 0})
     # (b) argument / option serialisation on a single task
     arglists = [[]] + [[x] for x in PRIMS] + [[x, y] for x in PRIMS for y in PRIMS]
     optdicts = [{}] + [{"k": x} for x in PRIMS] + [{"k": x, "j2": y} for x in PRIMS for y in PRIMS] + [{"j2": y, "k": x} for x in PRIMS[:3] for y in PRIMS[:3]]
